@@ -53,6 +53,8 @@ NA = S.numarr("na", 2)
 SCHEMAS = {
     "cat_x_cat": S.schema2("cat_x_cat", R4, C2, weighted=True),
     "cat_x_cat_T": S.schema2("cat_x_cat_T", C2, R4, weighted=True),
+    "cat_x_cat_sq_T": S.schema2("cat_x_cat_sq_T", C2, R4, weighted=True, squared=True),
+    "cat_x_cat_sq": S.schema2("cat_x_cat_sq", R4, C2, weighted=True, squared=True),
     "cat_x_mr": S.schema2("cat_x_mr", R4, M2),
     "mr_x_cat": S.schema2("mr_x_cat", M2, R4),
     "cat3_x_cat3": S.schema2("cat3_x_cat3", R4, C3, weighted=True),
@@ -67,7 +69,7 @@ SCHEMAS = {
                                                                    "valid_counts": True}),
     "numarr_x_cat": Schema("numarr_x_cat", [R4], [("cat", 0)], numeric={"measures": ["sum", "mean"], "numarr": NA}),
 }
-WEIGHTS = {"cat_x_cat": (1, 2), "cat_x_cat_T": (1, 2), "cat3_x_cat3": (1, 2), "cat_1d": (1, 2),
+WEIGHTS = {"cat_x_cat_sq_T": (1, 3), "cat_x_cat_sq": (1, 3), "cat_x_cat": (1, 2), "cat_x_cat_T": (1, 2), "cat3_x_cat3": (1, 2), "cat_1d": (1, 2),
            "date_x_cat": (1, 2), "cat_x_date": (1, 2), "date_1d": (1, 2)}
 NUMS = {"num_cat_x_cat": (None, 1, 3), "numarr_x_cat": (None, (1, None), (1, 3), (3, 3))}
 PROFILES = {n: s.profiles(WEIGHTS.get(n, (1,)), NUMS.get(n, (None,))) for n, s in SCHEMAS.items()}
@@ -164,6 +166,9 @@ SPACES = {
     "repeat_strand": ("cat_1d", _cfg_repeats("rows"), 2, 4),
     "repeat_wave_rows": ("date_x_cat", _cfg_repeats("rows"), 2, 3),
     "pair_rows_cat_x_cat": ("cat_x_cat", _cfg_pair("rows"), 1, 2),
+    # squared-weight measure: the effective base of a merged column is (sum w)^2 / sum w^2 of the merged respondents
+    "squared_cols": ("cat_x_cat_sq_T", _cfg_small("cols"), 2, 3),
+    "squared_rows": ("cat_x_cat_sq", _cfg_small("rows"), 2, 2),
     "nets_rows": ("cat_x_cat", _cfg_nets("rows"), 2, 3),
     "nets_cols": ("cat_x_cat_T", _cfg_nets("cols"), 2, 3),
     "pair_strand": ("cat_1d", _cfg_pair("rows"), 2, 3),
